@@ -79,5 +79,6 @@ pub fn hdl(r: &mut Rng64) -> HdlCfg {
         mode: r.below(3) as u8,
         table,
         allow_mask: if r.chance(1, 2) { u32::MAX } else { r.next() as u32 | 1 },
+        accept_empty: r.chance(1, 2),
     }
 }
